@@ -82,7 +82,7 @@ def register(R):
         ],
         raises={
             "LimitOverrunError": [
-                ("size-rejection-only-for-an-incomplete-frame-that-exceeds-the-limit", K.format("T") + f" == 0 and len(T) > {lim}", "C02 C07"),
+                ("size-rejection-only-for-an-incomplete-frame-that-exceeds-the-limit", K.format("T") + f" == 0 and len(T) > {lim}", "C01 C02 C07"),
                 ("everything-held-is-dropped", "len(exc.remaining_data) == 0 and exc.consumed == len(T)", "C02 C06"),
             ],
             "IncrementalDeserializeError": [
@@ -102,7 +102,7 @@ def register(R):
         ],
         raises={
             "LimitOverrunError": [
-                ("size-rejection-only-for-an-incomplete-frame-that-exceeds-the-limit", K.format("T") + f" == 0 and len(T) > {lim}", "C02 C07"),
+                ("size-rejection-only-for-an-incomplete-frame-that-exceeds-the-limit", K.format("T") + f" == 0 and len(T) > {lim}", "C01 C02 C07"),
                 ("everything-held-is-dropped", "len(exc.remaining_data) == 0", "C02 C06"),
             ],
             "IncrementalDeserializeError": [
